@@ -31,6 +31,19 @@ fn main() {
         "c03_empty_data" => c03_empty_data(),
         "c05_second_error" => c05_second_error(),
         "c07_reset_inside_frame" => c07_reset_inside_frame(),
+        "c09_refused_request_blocks_shutdown" => c09_refused_request_blocks_shutdown(),
+        "c12_refusal" => c12_refusal(args.get(2).map(|s| s.as_str()).unwrap_or("client")),
+        "c12_field_gate" => c12_field_gate(
+            args.get(2).map(|s| s.as_str()).unwrap_or(""),
+            args.get(3).map(|s| s.as_str()).unwrap_or(""),
+        ),
+        "c12_request_gate" => c12_request_gate(args.get(2).map(|s| s.as_str()).unwrap_or("")),
+        "c12_send_order" => c12_send_order(),
+        "c19_uni_header" => c19_uni_header(
+            args.get(2).map(|s| s.as_str()).unwrap_or(""),
+            args.get(3).map(|s| s.as_str()).unwrap_or(""),
+            args.get(4).map(|s| s == "surfaced").unwrap_or(false),
+        ),
         "c08_shutdown_sequence" => c08_shutdown_sequence(
             args.get(2).and_then(|s| s.parse().ok()).unwrap_or(2),
             args.get(3).and_then(|s| s.parse().ok()).unwrap_or(0),
@@ -599,4 +612,338 @@ fn c07_reset_inside_frame() -> i32 {
     } else {
         0
     }
+}
+
+
+/// Server: one request stream arrives and is finished by the client before any HEADERS (FIN only). The application
+/// accepts it and tries to resolve it (refused: H3_REQUEST_INCOMPLETE). The client then sends GOAWAY. Every request
+/// the server handed out has ended, so accept must report 'no more requests'. Reproduces (exit 1) if it stays Pending.
+fn c09_refused_request_blocks_shutdown() -> i32 {
+    let mock = Mock::new(true);
+    let mut conn: h3::server::Connection<Mock, Bytes> =
+        drive(h3::server::builder().build(mock.clone()), 10).expect("build completes").expect("build ok");
+    mock.push_bidi(0, vec![RecvEvent::Fin]);
+    let resolver = match drive(conn.accept(), 10) {
+        Some(Ok(Some(r))) => r,
+        _ => {
+            println!("request not accepted");
+            return 0;
+        }
+    };
+    let r = drive(resolver.resolve_request(), 10);
+    println!("resolve_request on a stream finished before HEADERS: {:?}", r.as_ref().map(|x| x.as_ref().map(|_| ()).map_err(|e| format!("{:?}", e))));
+    drop(r);
+    // the client's control stream: SETTINGS, GOAWAY(0)
+    mock.push_uni(2, vec![RecvEvent::Data(vec![0x00, 0x04, 0x00, 0x07, 0x01, 0x00])]);
+    let (_c, waker) = counting_waker();
+    let mut cx = Context::from_waker(&waker);
+    let mut last = String::new();
+    for i in 0..6 {
+        let r = conn.poll_accept_request_stream(&mut cx);
+        last = match &r {
+            Poll::Pending => "Pending".to_string(),
+            Poll::Ready(Ok(None)) => "Ready(Ok(None))".to_string(),
+            Poll::Ready(Ok(Some(_))) => "Ready(Ok(Some))".to_string(),
+            Poll::Ready(Err(e)) => format!("Ready(Err({:?}))", e),
+        };
+        println!("accept poll {}: {}", i, last);
+        if let Poll::Ready(Ok(Some(s))) = r {
+            std::mem::forget(s);
+        }
+        if last != "Pending" {
+            break;
+        }
+    }
+    std::mem::forget(conn);
+    if last == "Pending" {
+        println!("REPRODUCED: the refused request is never reported as ended: after the peer's GOAWAY accept() waits forever");
+        1
+    } else {
+        0
+    }
+}
+
+
+fn unhex(s: &str) -> Vec<u8> {
+    (0..s.len() / 2).map(|i| u8::from_str_radix(&s[2 * i..2 * i + 2], 16).unwrap_or(0)).collect()
+}
+
+/// HEADERS frame carrying one literal field line with a literal name (RFC 9204 4.5.6), no Huffman.
+fn headers_frame_literal(fields: &[(&[u8], &[u8])]) -> Vec<u8> {
+    let mut block = vec![0x00u8, 0x00];
+    for (n, v) in fields {
+        assert!(n.len() < 7 && v.len() < 127);
+        block.push(0x20 | n.len() as u8);
+        block.extend_from_slice(n);
+        block.push(v.len() as u8);
+        block.extend_from_slice(v);
+    }
+    let mut f = vec![0x01, block.len() as u8];
+    f.extend_from_slice(&block);
+    f
+}
+
+/// A malformed message (a field whose name has an upper-case letter) arrives as a response (role "client"), a request
+/// ("server") or trailers ("trailers"): it must be refused with StreamError{code: H3_MESSAGE_ERROR} and every signal sent
+/// on that stream (STOP_SENDING / RESET_STREAM) must carry H3_MESSAGE_ERROR.
+fn c12_refusal(role: &str) -> i32 {
+    let msg = Code::H3_MESSAGE_ERROR.value();
+    let code_of = |e: &StreamError| match e {
+        StreamError::StreamError { code, .. } => Some(code.value()),
+        _ => None,
+    };
+    let (api, sid, mock) = match role {
+        "client" => {
+            let mock = Mock::new(false);
+            mock.world.lock().unwrap().opened_bidi_events.push_back(vec![
+                RecvEvent::Data(headers_frame_literal(&[(b"Bad", b"x")])),
+                RecvEvent::Fin,
+            ]);
+            let (mut conn, mut send) = drive(h3::client::builder().build::<_, _, Bytes>(mock.clone()), 10)
+                .expect("build completes").expect("build ok");
+            let req = http::Request::builder().uri("https://a/").body(()).unwrap();
+            let mut stream = drive(send.send_request(req), 10).expect("send_request completes").expect("send_request ok");
+            let r = drive(stream.recv_response(), 10);
+            let api = r.map(|r| r.map(|_| ()).map_err(|e| (code_of(&e), format!("{:?}", e))));
+            std::mem::forget(stream);
+            std::mem::forget(send);
+            std::mem::forget(conn);
+            (api, 0u64, mock)
+        }
+        "server" | "trailers" => {
+            let mock = Mock::new(true);
+            let mut conn: h3::server::Connection<Mock, Bytes> =
+                drive(h3::server::builder().build(mock.clone()), 10).expect("build completes").expect("build ok");
+            let good = [0x00u8, 0x00, 0xd1, 0xd7, 0xc1, 0x50, 0x01, b'a'];
+            let mut bytes = Vec::new();
+            if role == "server" {
+                bytes.extend_from_slice(&headers_frame_literal(&[(b"Bad", b"x")]));
+            } else {
+                bytes.extend_from_slice(&[0x01, good.len() as u8]);
+                bytes.extend_from_slice(&good);
+                bytes.extend_from_slice(&headers_frame_literal(&[(b"Bad", b"x")]));
+            }
+            mock.push_bidi(0, vec![RecvEvent::Data(bytes), RecvEvent::Fin]);
+            let resolver = match drive(conn.accept(), 10) {
+                Some(Ok(Some(r))) => r,
+                _ => {
+                    println!("request not accepted");
+                    return 0;
+                }
+            };
+            let api = match drive(resolver.resolve_request(), 10) {
+                None => None,
+                Some(Err(e)) => Some(Err((code_of(&e), format!("{:?}", e)))),
+                Some(Ok((_req, mut stream))) => {
+                    if role == "server" {
+                        std::mem::forget(stream);
+                        Some(Ok(()))
+                    } else {
+                        let _ = drive(stream.recv_data(), 10);
+                        let t = drive(stream.recv_trailers(), 10);
+                        std::mem::forget(stream);
+                        t.map(|r| r.map(|_| ()).map_err(|e| (code_of(&e), format!("{:?}", e))))
+                    }
+                }
+            };
+            std::mem::forget(conn);
+            (api, 0u64, mock)
+        }
+        _ => return 2,
+    };
+    let w = mock.world.lock().unwrap();
+    let stops: Vec<u64> = w.log.stop_sendings.iter().filter(|s| s.0 == sid).map(|s| s.1).collect();
+    let resets: Vec<u64> = w.log.resets.iter().filter(|s| s.0 == sid).map(|s| s.1).collect();
+    println!("{}: API result {:?}; STOP_SENDING codes {:x?}; RESET_STREAM codes {:x?}", role, api, stops, resets);
+    let mut bad = false;
+    match &api {
+        Some(Err((Some(c), _))) if *c == msg => {}
+        _ => {
+            println!("REPRODUCED: the malformed message is not refused with StreamError{{code: H3_MESSAGE_ERROR}}");
+            bad = true;
+        }
+    }
+    if stops.iter().chain(resets.iter()).any(|c| *c != msg) {
+        println!("REPRODUCED: a signal sent on the refused stream carries a code other than H3_MESSAGE_ERROR (0x{:x})", msg);
+        bad = true;
+    }
+    if stops.is_empty() {
+        println!("REPRODUCED: the refused stream is not stopped");
+        bad = true;
+    }
+    bad as i32
+}
+
+/// One field (name, value given in hex) through the real gate; reproduces if the gate accepts a field the property
+/// excludes: empty name, a byte outside lower-case tchar in a regular name, an undefined ':x' pseudo name, or an illegal
+/// value byte in a regular field.
+fn c12_field_gate(name_hex: &str, value_hex: &str) -> i32 {
+    use h3::proto::headers::Header;
+    use h3::qpack::HeaderField;
+    let name = unhex(name_hex);
+    let value = unhex(value_hex);
+    let accepted = Header::try_from(vec![HeaderField::new(name.clone(), value.clone())]).is_ok();
+    let defined: [&[u8]; 6] = [b":method", b":scheme", b":authority", b":path", b":status", b":protocol"];
+    let tchar = |b: &u8| b.is_ascii_lowercase() || b.is_ascii_digit() || b"!#$%&'*+-.^_`|~".contains(b);
+    let legal = if name.is_empty() {
+        false
+    } else if name[0] == b':' {
+        defined.contains(&name.as_slice())
+    } else {
+        name.iter().all(tchar) && value.iter().all(|b| *b == b'\t' || (*b >= 0x20 && *b != 0x7f))
+    };
+    println!("name {:?} value {:?}: accepted={} legal={}", String::from_utf8_lossy(&name), String::from_utf8_lossy(&value), accepted, legal);
+    if accepted && !legal {
+        println!("REPRODUCED: the field gate accepts a field the property excludes");
+        return 1;
+    }
+    if !accepted && legal && (name[0] != b':') {
+        println!("REPRODUCED: the field gate refuses a legal regular field");
+        return 1;
+    }
+    0
+}
+
+/// Request assembly for a combination of flags (letters): m = :method present, a = :authority "a", h = Host "a",
+/// H = Host "b" (contradicts :authority "a"). Reproduces if the outcome differs from the rule in the property.
+fn c12_request_gate(flags: &str) -> i32 {
+    use h3::proto::headers::Header;
+    use h3::qpack::HeaderField;
+    let mut f: Vec<HeaderField> = vec![HeaderField::new(&b":scheme"[..], &b"https"[..]), HeaderField::new(&b":path"[..], &b"/"[..])];
+    if flags.contains('m') {
+        f.push(HeaderField::new(&b":method"[..], &b"GET"[..]));
+    }
+    if flags.contains('a') {
+        f.push(HeaderField::new(&b":authority"[..], &b"a"[..]));
+    }
+    if flags.contains('h') {
+        f.push(HeaderField::new(&b"host"[..], &b"a"[..]));
+    }
+    if flags.contains('H') {
+        f.push(HeaderField::new(&b"host"[..], &b"b"[..]));
+    }
+    let accepted = Header::try_from(f).map(|h| h.into_request_parts().is_ok()).unwrap_or(false);
+    let has_auth = flags.contains('a') || flags.contains('h') || flags.contains('H');
+    let contradict = flags.contains('a') && flags.contains('H');
+    let legal = flags.contains('m') && has_auth && !contradict;
+    println!("flags {:?}: accepted={} legal={}", flags, accepted, legal);
+    if accepted != legal {
+        println!("REPRODUCED: request assembly {} a request it must {}", if accepted { "accepts" } else { "refuses" }, if legal { "accept" } else { "refuse" });
+        return 1;
+    }
+    0
+}
+
+/// Field order of messages h3 builds: every pseudo-header field before any regular field, each at most once.
+fn c12_send_order() -> i32 {
+    use h3::proto::headers::Header;
+    let mut map = http::HeaderMap::new();
+    map.insert("x-a", http::HeaderValue::from_static("1"));
+    map.append("x-a", http::HeaderValue::from_static("2"));
+    let uri: http::Uri = "https://a/p?q".parse().unwrap();
+    let hs = [
+        Header::request(http::Method::GET, uri.clone(), map.clone(), Default::default()).expect("request header"),
+        Header::request(http::Method::CONNECT, uri, map.clone(), Default::default()).expect("request header"),
+        Header::response(http::StatusCode::OK, map),
+    ];
+    let mut rc = 0;
+    for h in hs {
+        let names: Vec<Vec<u8>> = h.into_iter().map(|f| f.into_inner().0.to_vec()).collect();
+        let mut seen_regular = false;
+        let mut seen: Vec<&[u8]> = Vec::new();
+        for n in &names {
+            if n[0] != b':' {
+                seen_regular = true;
+                continue;
+            }
+            if seen_regular || seen.contains(&n.as_slice()) {
+                rc = 1;
+            }
+            seen.push(n);
+        }
+        println!("emitted: {:?}", names.iter().map(|n| String::from_utf8_lossy(n).to_string()).collect::<Vec<_>>());
+    }
+    if rc == 1 {
+        println!("REPRODUCED: a pseudo-header field is emitted after a regular field or twice");
+    }
+    rc
+}
+
+
+/// An incoming unidirectional stream whose bytes (hex) arrive as scripted: D<k> = a chunk of k bytes, P = nothing yet
+/// (poll again), F = FIN, R = reset, C = connection closed. A push stream (type 0x01) is fed to a client, a WebTransport
+/// stream (0x54) to a server with WebTransport enabled. Reproduces if h3 closes the connection with H3_INTERNAL_ERROR:
+/// a stream header can be incomplete, never malformed.
+fn c19_uni_header(script: &str, bytes_hex: &str, must_surface: bool) -> i32 {
+    let data = unhex(bytes_hex);
+    let mut events = Vec::new();
+    let mut pos = 0usize;
+    let mut polls = 2;
+    for ev in script.split(',').filter(|e| !e.is_empty()) {
+        match &ev[..1] {
+            "D" => {
+                let k: usize = ev[1..].parse().unwrap_or(1);
+                let end = usize::min(pos + k, data.len());
+                events.push(RecvEvent::Data(data[pos..end].to_vec()));
+                pos = end;
+            }
+            "P" => {
+                events.push(RecvEvent::Pending);
+                polls += 1;
+            }
+            "F" => events.push(RecvEvent::Fin),
+            "R" => events.push(RecvEvent::Reset(0x10c)),
+            "C" => events.push(RecvEvent::ConnClose(0x100)),
+            _ => return 2,
+        }
+    }
+    let (ty, _) = if data.is_empty() { (0, 0) } else { varint_at(&data, 0) };
+    let (_c, waker) = counting_waker();
+    let mut cx = Context::from_waker(&waker);
+    let mock;
+    let mut surfaced = None;
+    if ty == 0x01 {
+        mock = Mock::new(false);
+        let (mut conn, send) = drive(h3::client::builder().build::<_, _, Bytes>(mock.clone()), 10)
+            .expect("build completes").expect("build ok");
+        mock.push_uni(3, events);
+        for i in 0..polls {
+            let r = conn.poll_close(&mut cx);
+            println!("client poll {}: {}", i, match r { Poll::Pending => "Pending".to_string(), Poll::Ready(e) => format!("Ready({:?})", e) });
+        }
+        std::mem::forget(send);
+        std::mem::forget(conn);
+    } else {
+        mock = Mock::new(true);
+        let mut b = h3::server::builder();
+        b.enable_webtransport(true).enable_extended_connect(true).enable_datagram(true).max_webtransport_sessions(1);
+        let mut conn: h3::server::Connection<Mock, Bytes> = drive(b.build(mock.clone()), 10).expect("build completes").expect("build ok");
+        mock.push_uni(2, events);
+        for i in 0..polls {
+            let r = conn.poll_accept_request_stream(&mut cx);
+            println!("server poll {}: {}", i, match r {
+                Poll::Pending => "Pending".to_string(),
+                Poll::Ready(Ok(_)) => "Ready(Ok)".to_string(),
+                Poll::Ready(Err(e)) => format!("Ready(Err({:?}))", e),
+            });
+        }
+        surfaced = Some(conn.inner.accepted_streams_mut().wt_uni_streams.len());
+        println!("WebTransport streams surfaced: {}", surfaced.unwrap());
+        std::mem::forget(conn);
+    }
+    let closed = mock.world.lock().unwrap().log.closed.clone();
+    println!("close calls: {:x?}", closed.iter().map(|c| c.0).collect::<Vec<_>>());
+    if closed.iter().any(|c| c.0 == Code::H3_INTERNAL_ERROR.value()) {
+        println!("REPRODUCED: the stream header, split across transport chunks, closes the connection with H3_INTERNAL_ERROR");
+        return 1;
+    }
+    // with `surfaced`: the delivered bytes hold the complete WebTransport stream header (0x54 + session id)
+    if must_surface && ty == 0x54 && surfaced == Some(0) {
+        let tn = varint_at(&data, 0).1;
+        if pos > tn && pos >= tn + varint_at(&data, tn).1 {
+            println!("REPRODUCED: the complete stream header (and the payload behind it) is buffered but the stream is not surfaced");
+            return 1;
+        }
+    }
+    0
 }
